@@ -90,14 +90,14 @@ fn render(case: &AttrCase, named: &[String], items: &[(String, bool, bool)]) -> 
     if !all_items.is_empty() {
         s.push_str(&format!("#[logos({})]\n", all_items.join(", ")));
     }
-    s.push_str(if case.generic { "enum T<'a, G> {\n" } else { "enum T {\n" });
+    s.push_str(if case.generic { "enum T<'a, G, H> {\n" } else { "enum T {\n" });
     match case.form {
         "token" => s.push_str(&format!("    #[token({args})]\n    A,\n")),
         "regex" => s.push_str(&format!("    #[regex({args})]\n    A,\n")),
         _ => s.push_str("    #[token(\"zz\")]\n    A,\n"),
     }
     if case.generic {
-        s.push_str("    #[token(\"w\", |lex| lex.slice())]\n    C(&'a str),\n    #[regex(\"v+\", make_g)]\n    D(G),\n");
+        s.push_str("    #[token(\"w\", |lex| lex.slice())]\n    C(&'a str),\n    #[regex(\"v+\", make_g)]\n    D(G),\n    #[regex(\"u+\", make_h)]\n    E(H),\n");
     }
     s.push_str("    #[token(\"q\")]\n    B,\n}\n");
     s
@@ -277,6 +277,7 @@ fn strategy() -> BoxedStrategy<AttrCase> {
         0.3,
         (
             select(vec!["type G = &'a str", "type G = u32", "type G = Vec<&'a str>", "type G = std::borrow::Cow<'a, str>", "type G = (&'a str, u8)"]),
+            select(vec!["type H = u64", "type H = &'a [u8]", "type H = Option<u8>", "type H = String"]),
             prop::option::weighted(0.7, select(vec!["lifetime = 'a", "lifetime = none", "lifetime = 'b"])),
             prop::option::weighted(0.3, select(vec!["extras = Ctx<'a>", "error = Err<'a>", "source = [u8]"])),
         ),
@@ -284,9 +285,10 @@ fn strategy() -> BoxedStrategy<AttrCase> {
     (form, lit, pos, prio, cb, ign, greedy, items, any::<u64>(), generic_items)
         .prop_map(|(form, literal, positional_cb, prio, cb, ign, greedy, mut items, perm_seed, generic_items)| {
             let generic = generic_items.is_some();
-            if let Some((ty, lt, more)) = generic_items {
+            if let Some((ty, ty2, lt, more)) = generic_items {
                 items.truncate(2);
                 items.push((ty, false, false));
+                items.push((ty2, false, false));
                 items.extend(lt.map(|l| (l, false, false)));
                 items.extend(more.map(|m| (m, false, false)));
             }
@@ -302,7 +304,13 @@ fn strategy() -> BoxedStrategy<AttrCase> {
             let mut li: Vec<(String, bool, bool)> = Vec::new();
             for (t, s, sp) in items {
                 let kind = t.split(|c: char| c == ' ' || c == '(' || c == '=').next().unwrap().to_string();
-                let key = if kind == "skip" || kind == "subpattern" { t.to_string() } else { kind };
+                let key = if kind == "skip" || kind == "subpattern" {
+                    t.to_string()
+                } else if kind == "type" {
+                    t.split('=').next().unwrap().trim().to_string()
+                } else {
+                    kind
+                };
                 if seen.insert(key) {
                     li.push((t.to_string(), s, sp));
                 }
@@ -332,7 +340,7 @@ pub fn main(args: &Args) -> i32 {
         "C18",
         &args.tier,
         args.seed,
-        "proptest attribute cases: #[token]/#[regex]/#[logos(skip(...))] with literal, optional positional callback and a subset of {priority, callback =, ignore(...), allow_greedy}; every permutation of the named arguments (<= 24) and up to 40 permutations of the items of one combined #[logos(...)] attribute (skip, skip(...), utf8, error, error(...), extras, crate, subpattern, export_dir, and on a generic enum T<'a, G>: type G = .., lifetime = .., source; subpatterns keep their relative order) is derived; oracle: same acceptance as the canonical order and identical generate() output (same leaves and automaton size when skips were reordered); evaluation = one permuted derive; non-trivial = distinct permutations with >= 2 named arguments where the parenthesised one is not last, or item orders with a parenthesised item not last",
+        "proptest attribute cases: #[token]/#[regex]/#[logos(skip(...))] with literal, optional positional callback and a subset of {priority, callback =, ignore(...), allow_greedy}; every permutation of the named arguments (<= 24) and up to 40 permutations of the items of one combined #[logos(...)] attribute (skip, skip(...), utf8, error, error(...), extras, crate, subpattern, export_dir, and on a generic enum T<'a, G, H>: type G = .., type H = .., lifetime = .., source; subpatterns keep their relative order) is derived; oracle: same acceptance as the canonical order and identical generate() output (same leaves and automaton size when skips were reordered); evaluation = one permuted derive; non-trivial = distinct permutations with >= 2 named arguments where the parenthesised one is not last, or item orders with a parenthesised item not last",
     );
     if let Some(path) = &args.replay {
         let v: serde_json::Value = serde_json::from_str(&std::fs::read_to_string(path).unwrap()).unwrap();
